@@ -244,13 +244,13 @@ fn worker(ctx: &mut Ctx) {
         json!({"current": format!("{:?}", chooks::format_versions()), "reference": format!("{:?}", rhooks::format_versions()),
                "versions_differ": !versions_equal()}),
     );
-    let run = DnaRun { cases: ctx.cfg.share(ns), max_dna: 700, shrink_iters: 200, stream: 0 };
+    let run = DnaRun { cases: ctx.cfg.share(ns), max_dna: 700, shrink_iters: 50, stream: 0 };
     if let Some((f, doc)) = run_dna(ctx, &run, eval_stream) {
-        minimise_and_record(ctx, f, doc, 1500, |cand, _doc, ctx| check_stream(cand, ctx, &[]));
+        minimise_and_record(ctx, f, doc, 250, |cand, _doc, ctx| check_stream(cand, ctx, &[]));
     }
-    let run = DnaRun { cases: ctx.cfg.share(nf), max_dna: 900, shrink_iters: 200, stream: 1 };
+    let run = DnaRun { cases: ctx.cfg.share(nf), max_dna: 900, shrink_iters: 50, stream: 1 };
     if let Some((f, doc)) = run_dna(ctx, &run, eval_file) {
-        minimise_and_record(ctx, f, doc, 1500, |cand, _doc, ctx| check_file(cand, ctx, &[]));
+        minimise_and_record(ctx, f, doc, 250, |cand, _doc, ctx| check_file(cand, ctx, &[]));
     }
 }
 
